@@ -136,12 +136,11 @@ fn is_raw(master: RawFd) -> bool {
     }
 }
 
-const MARKER: &[u8] = b"Running emitted binary\n";
-
-/// Newlines on standard output after the `Running` line.
+/// Newlines on standard output after the last status line that precedes the program's output.
 fn newlines(stdout: &[u8]) -> usize {
-    match stdout.windows(MARKER.len()).position(|w| w == MARKER) {
-        Some(at) => stdout[at + MARKER.len()..].iter().filter(|b| **b == b'\n').count(),
+    let marker = &crate::world_b::framing().before;
+    match stdout.windows(marker.len()).position(|w| w == &marker[..]) {
+        Some(at) => stdout[at + marker.len()..].iter().filter(|b| **b == b'\n').count(),
         None => 0,
     }
 }
